@@ -19,7 +19,7 @@ func init() {
 	register(&propDef{
 		ID:    "C06",
 		Level: "exploration",
-		Rule: "a case is (room version, event kind, assignment of servers to the roles sender / event-ID server / invitee / authoriser, per-required-signer state, extra signatures): member events of every membership (joins with and without join_authorised_via_users_server), create, power-levels and message events x all 16 versions x {all good, every single fault on every required signer (absent, corrupted, other key, second key ID good, expired before ts, expired after ts, valid_until before ts, valid_until == ts)} + random multi-fault combinations x 0-2 unrelated extra signatures; " +
+		Rule: "a case is (room version, event kind, assignment of servers to the roles sender / event-ID server / invitee / authoriser, per-required-signer state, extra signatures): member events of every membership (joins with and without join_authorised_via_users_server), create, power-levels and message events x all 16 versions x {all good, every single fault on every required signer (absent, corrupted, other key, second key ID good, expired before ts, expired after ts, valid_until before ts, valid_until == ts, expired before ts with a valid_until still recorded)} + random multi-fault combinations x 0-2 unrelated extra signatures; " +
 			"distinct = distinct (version, kind, roles, fault vector, extras); non-trivial = at least two distinct required servers or a fault present",
 		Assumptions: []string{"real KeyRing over an in-memory key database (no fetchers) behind a recording verifier", "crypto/ed25519", "event timestamps far enough in the past that the 7-day cap cannot interfere"},
 		Run:         runC06,
@@ -40,10 +40,11 @@ const (
 	sExpiredAfter
 	sValidUntilBefore
 	sValidUntilEqual
+	sExpiredBeforeStillListed
 	nSignerStates
 )
 
-var stateNames = []string{"good", "absent", "corrupted", "other-key", "two-keys-one-good", "expired-before-ts", "expired-after-ts", "valid-until-before-ts", "valid-until-equals-ts"}
+var stateNames = []string{"good", "absent", "corrupted", "other-key", "two-keys-one-good", "expired-before-ts", "expired-after-ts", "valid-until-before-ts", "valid-until-equals-ts", "expired-before-ts-with-valid-until"}
 
 func (s signerState) okFor(strict bool) bool {
 	switch s {
@@ -244,6 +245,11 @@ func runC06(c *mon.Ctx) {
 						case sValidUntilEqual:
 							p = p.Sign(s, "ed25519:main", ids[s].Priv)
 							db.set(s, "ed25519:main", ids[s].Pub, ts, 0)
+						case sExpiredBeforeStillListed:
+							// a record a key database may well hold: the key was withdrawn, the valid_until_ts it was last
+							// published with is still there. An expired key is judged by its expiry alone.
+							p = p.Sign(s, "ed25519:main", ids[s].Priv)
+							db.set(s, "ed25519:main", ids[s].Pub, farFuture, ts-1)
 						}
 					}
 					for i := 0; i < nExtra; i++ {
